@@ -5,6 +5,7 @@ chunk pushes exactly one value on every path and has no escaping jumps; a block 
 declares in its scope).  The emitted skeleton is then explored along every control-flow path using the repository's own
 stack_effect() table (executed from MIR; its agreement with the VM is C06.K1) and compared with the *linear* sum that
 apply_stack_effects computes."""
+import re
 import z3
 from vfw.core import obligation, get_program, summarize_paths
 from mirsym.engine import Engine
@@ -288,3 +289,50 @@ def c1_binary(res, tier):
     res.bounds = {'operator': 'every BinaryOp / UnaryOp'}
     _run(res, 'binary', 'compiler::ir::ast::Binary', 1)
     _run(res, 'unary', 'compiler::ir::ast::Unary', 1)
+
+
+def _bounded_vecs(maxn=3, at_least=None):
+    """setup: every vector field of the AST node has a concrete length 0..maxn (explored case by case)"""
+    at_least = at_least or {}
+
+    def setup(e, P, CW, c, node):
+        sd = P.struct_def(node.ty)
+        for i, (nm, fty) in enumerate(sd.fields):
+            if re.match(r'^(\w+::)*Vec<', norm_ty(fty)):
+                v = node.field(e, i, fty).get(e)
+                lo = at_least.get(nm, 0)
+                e.add_constraint(z3.And(z3.UGE(v.len, lo), z3.ULE(v.len, maxn)))
+                n = e.concretize(v.len, list(range(lo, maxn + 1)))
+                v.len = bv(n, 64)
+    return setup
+
+
+def _havoc_constants(e, CW):
+    # constant-pool indices are not the subject (C06.K3): any index
+    e.allow_havoc(r'^(compiler::)?Compiler::(identifier_constant|make_constant|string_constant)$', r'^(laythe_core::)?(allocator::)?Allocator::manage_str$')
+
+
+def _mk_more(fname, ast_ty, net, doc, setup=None, extra=None):
+    @obligation('C06.C1.' + fname.rstrip('_'), 'C06', programs=('vm',))
+    def ob(res, tier):
+        res.bounds = {'sub-constructs': 'opaque chunks (an expression pushes one value, a statement / block nets 0)', 'collections / argument lists / catch clauses': '0..3 items'}
+        _run(res, fname, ast_ty, net, setup=setup, extra=extra)
+    ob.__doc__ = doc
+    from vfw.core import REGISTRY
+    for o in REGISTRY.get('C06', []):
+        if o.id == 'C06.C1.' + fname.rstrip('_'):
+            o.doc = doc
+    return ob
+
+
+for _fname, _ty, _net, _doc, _setup, _extra in [
+    ('raise', 'compiler::ir::ast::Raise', 0, 'Compiler::raise: the raised value is consumed, net effect 0', None, None),
+    ('call', 'compiler::ir::ast::Call', 0, 'Compiler::call (a call trailer): the arguments are consumed, the callee slot becomes the result, net effect 0 on top of the callee', _bounded_vecs(), None),
+    ('index', 'compiler::ir::ast::Index', 0, 'Compiler::index (an index trailer): index consumed, receiver slot becomes the element', None, _havoc_constants),
+    ('channel', 'compiler::ir::ast::Channel', 1, 'Compiler::channel: one value (the channel) on every path', None, None),
+    ('list', 'compiler::ir::ast::Collection', 1, 'Compiler::list: the items are consumed into one value', _bounded_vecs(), None),
+    ('tuple', 'compiler::ir::ast::Collection', 1, 'Compiler::tuple: the items are consumed into one value', _bounded_vecs(), None),
+    ('map', 'compiler::ir::ast::Map', 1, 'Compiler::map: keys and values are consumed into one value', _bounded_vecs(), None),
+    ('interpolation', 'compiler::ir::ast::Interpolation', 1, 'Compiler::interpolation: the segments are consumed into one string', _bounded_vecs(), _havoc_constants),
+]:
+    _mk_more(_fname, _ty, _net, _doc, _setup, _extra)
